@@ -158,7 +158,7 @@ partial def evalExpr (st : DualState) : List String → Option (Num × List Stri
       let v ← unOp name a
       pure (v, r1)
 
-def dualStep (st : DualState) (toks : List String) : Option (DualState × String) :=
+def dualStep' (st : DualState) (toks : List String) : Option (DualState × String) :=
   match toks with
   | "flt" :: id :: [x] => do
     let id ← id.toNat?; let x ← parseF? x
@@ -329,5 +329,14 @@ def dualStep (st : DualState) (toks : List String) : Option (DualState × String
     | "D" => pure (st, fmtNum (.dual2 a.toDual2))
     | _ => none
   | _ => none
+
+/-- the comparison ops routed through the generic `Number` container (`ncmp`, `ncmpf`, `fncmp`) have the
+same model answers as the contained-type comparisons (C18: container = contained types) -/
+def dualStep (st : DualState) (toks : List String) : Option (DualState × String) :=
+  match toks with
+  | "ncmp" :: r => dualStep' st ("cmp" :: r)
+  | "ncmpf" :: r => dualStep' st ("cmpf" :: r)
+  | "fncmp" :: r => dualStep' st ("fcmp" :: r)
+  | t => dualStep' st t
 
 end Drv
